@@ -122,8 +122,8 @@ class C09(Harness):
             f = PIPE(steps + [("f", Member(p=9))])
         elif kind == "multiplexer":
             MUX = W.load("sktime.forecasting.compose._multiplexer").MultiplexForecaster
-            names = ["a", "b", "c", "zzz"]
-            f = MUX([("a", Member(p=1)), ("b", Member(p=2)), ("c", Member(p=3))], selected_forecaster=names[inp["sel"]])
+            names = ["a", "b", "ab", "zzz"]  # one member's name is contained in a later member's name
+            f = MUX([("a", Member(p=1)), ("b", Member(p=2)), ("ab", Member(p=3))], selected_forecaster=names[inp["sel"]])
         elif kind == "stacking":
             STK = W.load("sktime.forecasting.compose._stack").StackingForecaster
             Reg = make_regressor(W, log)
